@@ -7,7 +7,7 @@ CONSTANTS
   KF_ReaderByteCountIgnoresPartial = FALSE
   MaxLines = 4
   Bodies <- BodiesMixed
-  CtxMax = 2
+  CtxMax = 1
   Terms = {"lf", "crlf"}
   Strats = {"reader", "slice"}
   Paths = {"slow", "fast", "cand"}
